@@ -31,6 +31,31 @@ pub fn run_check(ctx: &Ctx) -> Outcome {
         "bounded exploration: absence of violations is established only for the generated cases".into(),
         "the verification hooks (feature verif-hooks) report the internal lists faithfully".into(),
     ];
+    // seconds-long replay tier: committed counterexamples of repaired defects and of seeded
+    // changes (regress/<id>/*.json) are re-executed first; on a tree where the property holds
+    // they all pass, and a defect that returns is reported with that file as the replay
+    let rdir = format!("{}/regress/{}", ctx.verif_dir, ctx.id);
+    let mut replayed = 0u64;
+    if let Ok(rd) = std::fs::read_dir(&rdir) {
+        let mut files: Vec<String> = rd.flatten().map(|e| e.path().to_string_lossy().to_string()).filter(|p| p.ends_with(".json")).collect();
+        files.sort();
+        for f in files {
+            if f.contains("/crash-") || f.contains("e5-") {
+                continue; // crash files are replayed by `./check <id> --replay` in a child process
+            }
+            replayed += 1;
+            match replay_file(&f) {
+                Ok(Some(v)) => {
+                    if ctx.known.matches(&ctx.id, &v.sig).is_none() {
+                        out.violations.push((f.clone(), format!("regression replay fails again: {}", v.msg)));
+                    }
+                }
+                Ok(None) => {}
+                Err(e) => out.inconclusive = Some(format!("cannot replay {}: {}", f, e)),
+            }
+        }
+    }
+    out.coverage.insert("regression_replays_passed".into(), json!(replayed - out.violations.len() as u64));
     match ctx.id.as_str() {
         "C01" => {
             check_e1(ctx, Prop::C01, &mut out, 12000, 250000);
